@@ -911,7 +911,7 @@ func (h *verifWHist) stepReobs(tx *verifWTx, errAt map[string]int, shortHash boo
 	if !hit["height"] {
 		ht = height
 	}
-	rec := map[string]interface{}{"op": "reobs", "tx": tx.n, "short": shortHash, "status": status, "events": evs, "blocks": h.blockTable(), "hderr": hdrErr, "mc": mc,
+	rec := map[string]interface{}{"op": "reobs", "tx": tx.n, "short": shortHash, "chain": int(vaa.ChainIDAlephium), "txlen": len(txHash), "status": status, "events": evs, "blocks": h.blockTable(), "hderr": hdrErr, "mc": mc,
 		"height": ht, "lo": lo, "hi": hi, "res": res, "fwd": got}
 	if len(res) > 5 && res[:5] == "panic" {
 		rec["res"] = "panic"
@@ -1147,7 +1147,11 @@ func (h *verifWHist) row() map[string]interface{} {
 			if e.tok != nil {
 				tok = map[string]interface{}{"id": e.tok.id, "dec": e.tok.dec, "sym": hex.EncodeToString(e.tok.sym), "name": hex.EncodeToString(e.tok.name)}
 			}
-			conv = map[string]interface{}{"s": e.sender, "cl": e.cl, "k": e.kind[:1], "tok": tok}
+			p0 := -1
+			if len(e.payload) > 0 {
+				p0 = int(e.payload[0])
+			}
+			conv = map[string]interface{}{"s": e.sender, "cl": e.cl, "k": e.kind[:1], "p0": p0, "tok": tok}
 		}
 		evs = append(evs, map[string]interface{}{"uid": e.uid, "blk": e.blk.id, "tx": e.tx, "c": e.contract, "idx": e.index, "conv": conv, "what": e.what})
 	}
